@@ -606,4 +606,307 @@ Proof.
     + intros y Hy. apply in_app_or in Hy. destruct Hy as [Hy|[<-|[]]]; [apply N; now apply S1|exact Bd].
 Qed.
 
+(* ------------------------------------------------------------------------------------------ *)
+(* least_upper_bound_assign: x and y are omega-reduced, then every disjunct of y is added with
+   add_non_bottom_disjunct_preserve_reduction(y_i, old_begin, old_end) where old_end = end() is the
+   list sentinel: the range always extends to the current end of the sequence *)
+Definition add_end (range : list D) (d : D) : list D := flat3 (add_nb_preserve d [] range []).
+
+Definition lub (hurry : nat -> bool) (y s : ps) : ps :=
+  let s' := omega_reduce hurry s in
+  let y' := omega_reduce hurry y in
+  mk_ps (fold_left add_end (seq y') (seq s')) (reduced s').
+
+Lemma add_end_union range d p : den_l (add_end range d) p <-> den_l range p \/ den d p.
+Proof.
+  unfold add_end. rewrite add_nb_preserve_union. cbn [app]. now rewrite app_nil_r.
+Qed.
+
+Lemma fold_add_end_union ys : forall range p, den_l (fold_left add_end ys range) p <-> den_l range p \/ den_l ys p.
+Proof.
+  induction ys as [|y ys IH]; intros range p; cbn [fold_left].
+  - rewrite den_l_nil. tauto.
+  - rewrite IH, add_end_union, den_l_cons. tauto.
+Qed.
+
+Lemma fold_add_end_reduced ys : forall range, nobot ys -> omega_reduced_l range -> omega_reduced_l (fold_left add_end ys range).
+Proof.
+  induction ys as [|y ys IH]; intros range N R; cbn [fold_left]; [exact R|].
+  apply IH; [intros z Hz; apply N; now right|]. apply add_nb_preserve_reduced; [apply N; now left|exact R].
+Qed.
+
+Theorem ub_union y s p : den_ps (lub never y s) p <-> den_ps s p \/ den_ps y p.
+Proof.
+  unfold lub, den_ps at 1. cbn [seq]. rewrite fold_add_end_union.
+  fold (den_ps (omega_reduce never s)). fold (den_ps (omega_reduce never y)). now rewrite !omega_reduce_union.
+Qed.
+
+Theorem ub_superset hurry y s p : den_ps s p \/ den_ps y p -> den_ps (lub hurry y s) p.
+Proof.
+  unfold lub, den_ps at 3. cbn [seq]. rewrite fold_add_end_union.
+  intros [H|H]; [left|right]; now apply omega_reduce_superset.
+Qed.
+
+Theorem ub_wf y s : wf s -> wf y -> reduced (lub never y s) = true /\ omega_reduced_l (seq (lub never y s)).
+Proof.
+  intros Ws Wy. unfold lub. cbn [seq reduced].
+  destruct (omega_reduce_reduced s Ws) as [F1 R1]. destruct (omega_reduce_reduced y Wy) as [F2 [R2 N2]].
+  split; [exact F1|]. apply fold_add_end_reduced; assumption.
+Qed.
+
+(* ------------------------------------------------------------------------------------------ *)
+(* pairwise_apply_assign, meet_assign *)
+Definition pairwise_apply (hurry : nat -> bool) (op : D -> D -> D) (y s : ps) : ps :=
+  let s' := omega_reduce hurry s in
+  let y' := omega_reduce hurry y in
+  mk_ps (flat_map (fun x => drop_bottoms (map (op x) (seq y'))) (seq s')) false.
+
+Lemma den_l_flat_map (f : D -> list D) l p : den_l (flat_map f l) p <-> exists x, In x l /\ den_l (f x) p.
+Proof.
+  unfold den_l. split.
+  - intros [d [H Hd]]. apply in_flat_map in H. destruct H as [x [Hx Hd']]. exists x. split; [exact Hx|]. exists d. now split.
+  - intros [x [Hx [d [H Hd]]]]. exists d. split; [|exact Hd]. apply in_flat_map. exists x. now split.
+Qed.
+Lemma den_l_map (f : D -> D) l p : den_l (map f l) p <-> exists x, In x l /\ den (f x) p.
+Proof.
+  unfold den_l. split.
+  - intros [d [H Hd]]. apply in_map_iff in H. destruct H as [x [<- Hx]]. exists x. now split.
+  - intros [x [Hx Hd]]. exists (f x). split; [now apply in_map|exact Hd].
+Qed.
+
+Theorem pairwise_apply_union (op : D -> D -> D) (Rel : P -> P -> P -> Prop) y s :
+  (forall a b q, den (op a b) q <-> exists p1 p2, den a p1 /\ den b p2 /\ Rel p1 p2 q) ->
+  forall q, den_ps (pairwise_apply never op y s) q <-> exists p1 p2, den_ps s p1 /\ den_ps y p2 /\ Rel p1 p2 q.
+Proof.
+  intros Hop q. unfold pairwise_apply, den_ps at 1. cbn [seq]. rewrite den_l_flat_map. split.
+  - intros [x [Hx H]]. apply (proj1 (drop_bottoms_den _ _)) in H. apply (proj1 (den_l_map _ _ _)) in H. destruct H as [b [Hb H]].
+    apply Hop in H. destruct H as [p1 [p2 [H1 [H2 H3]]]]. exists p1, p2. split; [|split; [|exact H3]].
+    + apply omega_reduce_union. exists x. now split.
+    + apply omega_reduce_union. exists b. now split.
+  - intros [p1 [p2 [H1 [H2 H3]]]]. apply omega_reduce_union in H1. apply omega_reduce_union in H2.
+    destruct H1 as [x [Hx H1]]. destruct H2 as [b [Hb H2]]. exists x. split; [exact Hx|].
+    apply (proj2 (drop_bottoms_den _ _)). apply (proj2 (den_l_map _ _ _)). exists b. split; [exact Hb|]. apply Hop. exists p1, p2. auto.
+Qed.
+
+Definition meet_assign (hurry : nat -> bool) (y s : ps) : ps := pairwise_apply hurry meet y s.
+
+Theorem meet_union y s p : den_ps (meet_assign never y s) p <-> den_ps s p /\ den_ps y p.
+Proof.
+  unfold meet_assign.
+  rewrite (pairwise_apply_union meet (fun p1 p2 q => p1 = q /\ p2 = q)).
+  - split; [intros [p1 [p2 [H1 [H2 [-> ->]]]]]; now split|intros [H1 H2]; exists p, p; auto].
+  - intros a b q. rewrite meet_exact. split; [intros [H1 H2]; exists q, q; auto|intros [p1 [p2 [H1 [H2 [-> ->]]]]]; now split].
+Qed.
+
+Theorem pairwise_apply_wf hurry op y s : wf (pairwise_apply hurry op y s).
+Proof. intros H; discriminate. Qed.
+
+(* ------------------------------------------------------------------------------------------ *)
+(* definitely_entails: the two `found' loops *)
+Fixpoint find_entailed (x : D) (ys : list D) : bool :=
+  match ys with [] => false | y :: r => if entails x y then true else find_entailed x r end.
+Fixpoint all_entailed (xs ys : list D) : bool :=
+  match xs with [] => true | x :: r => if find_entailed x ys then all_entailed r ys else false end.
+Definition definitely_entails (x y : ps) : bool := all_entailed (seq x) (seq y).
+
+Lemma find_entailed_ok x ys : find_entailed x ys = true -> exists y, In y ys /\ entails x y = true.
+Proof.
+  induction ys as [|y r IH]; cbn [find_entailed]; [discriminate|]. destruct (entails x y) eqn:E.
+  - intros _. exists y. split; [now left|exact E].
+  - intros H. destruct (IH H) as [z [Hz Ez]]. exists z. split; [now right|exact Ez].
+Qed.
+
+Theorem entails_geometric x y : definitely_entails x y = true -> forall p, den_ps x p -> den_ps y p.
+Proof.
+  unfold definitely_entails, den_ps. generalize (seq y). intros ys. induction (seq x) as [|a r IH]; cbn [all_entailed].
+  - intros _ p H. now apply den_l_nil in H.
+  - destruct (find_entailed a ys) eqn:F; [|discriminate]. intros H p Hp. apply den_l_cons in Hp. destruct Hp as [Hp|Hp].
+    + destruct (find_entailed_ok _ _ F) as [z [Hz Ez]]. exists z. split; [exact Hz|]. eapply entails_sound; eauto.
+    + now apply IH.
+Qed.
+
+(* ------------------------------------------------------------------------------------------ *)
+(* is_bottom / is_top of a powerset (omega-reduce first) *)
+Variable is_top : D -> bool.
+Hypothesis top_sound : forall a, is_top a = true -> forall p, den a p.
+Hypothesis bottom_complete : forall a, (forall p, ~ den a p) -> is_bottom a = true.
+
+Definition is_bottom_ps (hurry : nat -> bool) (s : ps) : ps * bool :=
+  let s' := omega_reduce hurry s in (s', match seq s' with [] => true | _ => false end).
+Definition is_top_ps (hurry : nat -> bool) (s : ps) : ps * bool :=
+  let s' := omega_reduce hurry s in (s', match seq s' with [x] => is_top x | _ => false end).
+
+Theorem is_bottom_ps_exact s : wf s -> (snd (is_bottom_ps never s) = true <-> forall p, ~ den_ps s p).
+Proof.
+  intros W. unfold is_bottom_ps. cbn [snd]. destruct (omega_reduce_reduced s W) as [_ [_ N]].
+  pose proof (omega_reduce_union s) as U. destruct (seq (omega_reduce never s)) as [|x r] eqn:E.
+  - split; [|reflexivity]. intros _ p H. apply U in H. unfold den_ps in H. rewrite E in H. now apply den_l_nil in H.
+  - split; [discriminate|]. intros H. exfalso.
+    assert (B : is_bottom x = true).
+    { apply bottom_complete. intros p Hp. apply (H p). apply U. unfold den_ps. rewrite E. apply den_l_cons. now left. }
+    rewrite (N x (or_introl eq_refl)) in B. discriminate.
+Qed.
+
+Theorem is_top_ps_sound hurry s : snd (is_top_ps hurry s) = true -> forall p, den_ps (fst (is_top_ps hurry s)) p.
+Proof.
+  unfold is_top_ps. cbn [fst snd]. unfold den_ps. destruct (seq (omega_reduce hurry s)) as [|x [|y r]]; try discriminate.
+  intros H p. apply den_l_cons. left. now apply top_sound.
+Qed.
+
+(* ------------------------------------------------------------------------------------------ *)
+(* the disjunct-wise operations of Pointset_Powerset (add_constraint, affine_image, ...):
+   [keep_flag] = the C++ body does not reset `reduced' (add_space_dimensions_*, expand,
+   fold_space_dimensions, topological_closure_assign) *)
+Definition map_assign (f : D -> D) (keep_flag : bool) (s : ps) : ps :=
+  mk_ps (map f (seq s)) (if keep_flag then reduced s else false).
+
+Theorem map_union (f : D -> D) (Rel : P -> P -> Prop) k s :
+  (forall a q, den (f a) q <-> exists p, den a p /\ Rel p q) ->
+  forall q, den_ps (map_assign f k s) q <-> exists p, den_ps s p /\ Rel p q.
+Proof.
+  intros Hf q. unfold map_assign, den_ps. cbn [seq]. rewrite den_l_map. split.
+  - intros [x [Hx H]]. apply Hf in H. destruct H as [p [H1 H2]]. exists p. split; [exists x; now split|exact H2].
+  - intros [p [[x [Hx H1]] H2]]. exists x. split; [exact Hx|]. apply Hf. exists p. now split.
+Qed.
+
+Theorem map_reset_wf f s : wf (map_assign f false s).
+Proof. intros H; discriminate. Qed.
+
+(* keeping the flag is justified for operations that neither create nor destroy comparabilities *)
+Theorem map_keep_wf f s :
+  (forall a b, entails (f a) (f b) = entails a b) -> (forall a, is_bottom (f a) = is_bottom a) ->
+  wf s -> wf (map_assign f true s).
+Proof.
+  intros He Hb W. unfold wf, map_assign. cbn [seq reduced]. intros R. destruct (W R) as [Rd N]. split.
+  - clear N W R. induction (seq s) as [|x r IH]; cbn [map red]; [exact I|]. destruct Rd as [Rx Rr]. split; [|now apply IH].
+    intros y Hy. apply in_map_iff in Hy. destruct Hy as [z [<- Hz]]. unfold incomparable. rewrite !He. now apply Rx.
+  - intros y Hy. apply in_map_iff in Hy. destruct Hy as [z [<- Hz]]. rewrite Hb. now apply N.
+Qed.
+
+(* ------------------------------------------------------------------------------------------ *)
+(* Pointset_Powerset::pairwise_reduce *)
+Variable ub_if_exact : D -> D -> option D.     (* pi.upper_bound_assign_if_exact(pj) *)
+Hypothesis ub_if_exact_sound : forall a b u, ub_if_exact a b = Some u -> forall p, den u p <-> den a p \/ den b p.
+
+(* inner loop over the later, unmarked disjuncts *)
+Fixpoint find_partner (pi : D) (rest : list (D * bool)) : option (D * list (D * bool)) :=
+  match rest with
+  | [] => None
+  | (pj, m) :: r =>
+      if m then option_map (fun ur => (fst ur, (pj, m) :: snd ur)) (find_partner pi r)
+      else match ub_if_exact pi pj with
+           | Some u => Some (u, (pj, true) :: r)
+           | None => option_map (fun ur => (fst ur, (pj, m) :: snd ur)) (find_partner pi r)
+           end
+  end.
+
+(* first loop: builds new_x out of the merged pairs; returns (new_x, deleted, the unmarked ones in order) *)
+Fixpoint pr_pass1 (fuel : nat) (l : list (D * bool)) (new_x : list D) (deleted : nat) (unm : list D)
+  : list D * nat * list D :=
+  match fuel, l with
+  | S f, (pi, m) :: rest =>
+      if m then pr_pass1 f rest new_x deleted unm
+      else match find_partner pi rest with
+           | Some (u, rest') => pr_pass1 f rest' (add_end new_x u) (S deleted) unm
+           | None => pr_pass1 f rest new_x deleted (unm ++ [pi])
+           end
+  | _, _ => (new_x, deleted, unm ++ map fst (filter (fun e => negb (snd e)) l))
+  end.
+
+(* second loop: new_x_begin = new_x.begin(), new_x_end = new_x.end(); when new_x is empty both are the
+   sentinel and stay so: the range remains empty and every unmarked disjunct is pushed unchecked *)
+Definition pr_pass2 (new_x unm : list D) : list D :=
+  match new_x with [] => unm | _ => fold_left add_end unm new_x end.
+
+Definition pr_round (l : list D) : list D * nat :=
+  let '(new_x, deleted, unm) := pr_pass1 (length l) (map (fun d => (d, false)) l) [] 0 [] in
+  (pr_pass2 new_x unm, deleted).
+
+Fixpoint pr_loop (fuel : nat) (l : list D) : list D :=
+  match fuel with
+  | O => l
+  | S f => let (l', deleted) := pr_round l in if Nat.eqb deleted 0 then l' else pr_loop f l'
+  end.
+
+Definition pairwise_reduce (hurry : nat -> bool) (s : ps) : ps :=
+  let s' := omega_reduce hurry s in
+  mk_ps (pr_loop (S (length (seq s'))) (seq s')) (reduced s').
+
+Definition den_m (l : list (D * bool)) (p : P) : Prop := exists e, In e l /\ snd e = false /\ den (fst e) p.
+
+Lemma den_m_cons e l p : den_m (e :: l) p <-> (snd e = false /\ den (fst e) p) \/ den_m l p.
+Proof.
+  unfold den_m. split.
+  - intros [x [[<-|H] Hx]]; [now left|right; eauto].
+  - intros [H|[x [H Hx]]]; [exists e; split; [now left|exact H]|exists x; split; [now right|exact Hx]].
+Qed.
+
+Lemma find_partner_spec pi : forall rest u rest',
+  find_partner pi rest = Some (u, rest') ->
+  forall p, den u p \/ den_m rest' p <-> den pi p \/ den_m rest p.
+Proof.
+  induction rest as [|[pj m] r IH]; intros u rest' H p; cbn [find_partner] in H; [discriminate|].
+  assert (K : option_map (fun ur => (fst ur, (pj, m) :: snd ur)) (find_partner pi r) = Some (u, rest') ->
+              den u p \/ den_m rest' p <-> den pi p \/ den_m ((pj, m) :: r) p).
+  { destruct (find_partner pi r) as [[u0 r0]|] eqn:F; cbn [option_map fst snd]; [|discriminate].
+    intros [= <- <-]. rewrite !den_m_cons. cbn [fst snd]. specialize (IH u0 r0 eq_refl p). tauto. }
+  destruct m; [exact (K H)|]. destruct (ub_if_exact pi pj) as [u0|] eqn:U; [|exact (K H)].
+  injection H as <- <-. rewrite !den_m_cons. cbn [fst snd]. rewrite (ub_if_exact_sound _ _ _ U p).
+  split; [|intros [X|[[_ X]|X]]; auto]. intros [[X|X]|[[X _]|X]]; auto; discriminate.
+Qed.
+
+Lemma den_m_filter l p : den_m l p <-> den_l (map fst (filter (fun e => negb (snd e)) l)) p.
+Proof.
+  induction l as [|[d m] l IH]; cbn [filter map].
+  - unfold den_m, den_l. split; intros [x [[] _]].
+  - rewrite den_m_cons. cbn [fst snd negb]. destruct m; cbn [negb map fst]; rewrite ?den_l_cons, IH; [|tauto].
+    split; [intros [[X _]|X]; [discriminate|exact X]|tauto].
+Qed.
+
+Lemma pr_pass1_union fuel : forall l new_x deleted unm p,
+  (let '(nx, _, um) := pr_pass1 fuel l new_x deleted unm in den_l nx p \/ den_l um p) <->
+  (den_l new_x p \/ den_l unm p \/ den_m l p).
+Proof.
+  induction fuel as [|f IH]; intros l new_x deleted unm p.
+  - cbn [pr_pass1]. rewrite den_l_app, <- den_m_filter. tauto.
+  - destruct l as [|[pi m] rest]; cbn [pr_pass1].
+    + cbn [filter map]. rewrite app_nil_r. unfold den_m. split; [tauto|]. intros [H|[H|[e [[] _]]]]; auto.
+    + destruct m.
+      * rewrite IH, den_m_cons. cbn [snd]. split; [tauto|]. intros [H|[H|[[H _]|H]]]; auto; discriminate.
+      * destruct (find_partner pi rest) as [[u rest']|] eqn:F.
+        -- rewrite IH, add_end_union, den_m_cons. cbn [fst snd]. pose proof (find_partner_spec pi rest u rest' F p). tauto.
+        -- rewrite IH, den_l_app, den_l_cons, den_l_nil, den_m_cons. cbn [fst snd]. tauto.
+Qed.
+
+Lemma pr_round_union l p : den_l (fst (pr_round l)) p <-> den_l l p.
+Proof.
+  unfold pr_round. pose proof (pr_pass1_union (length l) (map (fun d => (d, false)) l) [] 0 [] p) as H.
+  destruct (pr_pass1 (length l) (map (fun d => (d, false)) l) [] 0 []) as [[nx dl] um]. cbn [fst].
+  assert (E : den_m (map (fun d => (d, false)) l) p <-> den_l l p).
+  { unfold den_m, den_l. split.
+    - intros [e [He [_ Hd]]]. apply in_map_iff in He. destruct He as [d [<- Hd']]. exists d. now split.
+    - intros [d [Hd Hp]]. exists (d, false). split; [now apply (in_map (fun d => (d, false)))|now split]. }
+  rewrite den_l_nil in H. rewrite <- E.
+  assert (G : den_l (pr_pass2 nx um) p <-> den_l nx p \/ den_l um p).
+  { unfold pr_pass2. destruct nx as [|n0 nx']; [rewrite den_l_nil; tauto|]. now rewrite fold_add_end_union. }
+  rewrite G. tauto.
+Qed.
+
+Lemma pr_loop_union fuel : forall l p, den_l (pr_loop fuel l) p <-> den_l l p.
+Proof.
+  induction fuel as [|f IH]; intros l p; cbn [pr_loop]; [tauto|].
+  pose proof (pr_round_union l p) as R. destruct (pr_round l) as [l' dl]. cbn [fst] in R.
+  destruct (Nat.eqb dl 0); [exact R|]. now rewrite IH.
+Qed.
+
+Theorem pairwise_reduce_union s p : den_ps (pairwise_reduce never s) p <-> den_ps s p.
+Proof.
+  unfold pairwise_reduce, den_ps at 1. cbn [seq]. rewrite pr_loop_union. apply omega_reduce_union.
+Qed.
+
+Theorem pairwise_reduce_superset hurry s p : den_ps s p -> den_ps (pairwise_reduce hurry s) p.
+Proof.
+  unfold pairwise_reduce, den_ps at 2. cbn [seq]. rewrite pr_loop_union. apply omega_reduce_superset.
+Qed.
+
 End PS.
